@@ -66,6 +66,14 @@ def make_jobs(rnd, tier):
             jobs.append(dict(cfg=dict(p=p, n=n, res=0, ign=0),
                              prog=[["input", 0, "priv", 0], ["input", 1, "priv", 1], ["bin", 2, o1, 0, 1], ["ite", 3, 2, 0, 1], ["bin", 4, o2, 3, 0]],
                              ins=[a, b], op="compose:%s,ite,%s" % (o1, o2), kinds="priv/priv", full=1))
+        # an object first decomposed inside a (possibly not taken) guarded region, then used again outside
+        for _ in range(per * 3):
+            c, a, b = rnd.choice([0, 1]), rnd.randrange(0, 2 ** n), rnd.randrange(0, 2 ** n)
+            inner = rnd.choice([["meth", 3, "to_bits", None, 1, []], ["bin", 3, "and", 1, 2], ["bin", 3, "rshift", 1, 4], ["un", 3, "invert", 1], ["bin", 3, "lt", 1, 2]])
+            outer = rnd.choice([["bin", 5, "and", 1, 2], ["bin", 5, "xor", 1, 2], ["bin", 5, "rshift", 1, 4], ["un", 5, "invert", 1], ["bin", 5, "or", 2, 1]])
+            jobs.append(dict(cfg=dict(p=p, n=n, res=0, ign=0),
+                             prog=[["input", 0, "priv", 0], ["input", 1, "priv", 1], ["input", 2, "priv", 2], ["const", 4, ["int", 1]], ["guarded", 0, [inner]], outer],
+                             ins=[c, a, b], op="reuse-after-guard:%s,%s" % (inner[2], outer[2]), kinds="priv/priv/priv", full=1))
     return jobs
 
 
@@ -106,7 +114,8 @@ def work(arg):
     # operands = variables allocated by the input statements (booleanity of a bool input adds no variable)
     fixed = order[:nin]
     res = []
-    for tag, v, items in last_stmt_outs(rec, len(job["prog"])):
+    ndst = sum(1 for s_ in job["prog"] if s_[0] not in ("guarded", "ignore")) + sum(len(s_[2]) for s_ in job["prog"] if s_[0] == "guarded")
+    for tag, v, items in last_stmt_outs(rec, ndst):
         r = solver.analyse(tr, p, fixed, items, v)
         entry = dict(status=r["status"], tag=tag)
         if r["status"] == "found":
